@@ -292,6 +292,8 @@ def make_instance(rng, idx, contingent, n, m, d, stats):
     """generate until an instance is accepted; acceptance is biased towards instances with longer conformant plans"""
     from unified_planning.model import Problem
     family = "neg" if (idx % 10 in (2, 6, 9) or idx % 20 == 14) else None     # 7 of 20 quick problems (2 contingent)
+    if idx % 10 == 3 or idx % 20 in (7, 11):
+        family = "relost"                                                       # 4 of 20 (1 contingent)
     while True:
         gen = KGen(rng, contingent=contingent, family=family)
         stats["generated"] += 1
@@ -315,9 +317,10 @@ def make_instance(rng, idx, contingent, n, m, d, stats):
             plan = orc.belief_search([gen.state_of(b) for b in gen.bits], gen.ground_instances(), n)
         L = None if plan is None else len(plan)
         want = idx % 5
-        if family is not None:
+        if family == "relost":
+            keep = 1.0 if (L or 0) >= 2 else 0.0        # the family is about plans that lose and re-establish the literal
+        elif family is not None:
             keep = 1.0
-            stats["family_" + family] = stats.get("family_" + family, 0) + 1
         elif want in (0, 3):                 # a conformant plan of length >= 2
             keep = 1.0 if (L or 0) >= 2 else 0.0
         elif want == 1:                    # the longer the better
@@ -327,6 +330,8 @@ def make_instance(rng, idx, contingent, n, m, d, stats):
         else:                              # no conformant plan within the bound, or a one-step plan
             keep = 1.0 if L is None else (0.5 if L == 1 else 0.0)
         if rng.random() < keep:
+            if family is not None:
+                stats["family_" + family] = stats.get("family_" + family, 0) + 1
             inst = Instance(idx, gen, n, m, d)
             inst.oracle = orc
             inst.py_plan_len = L
